@@ -611,6 +611,13 @@ class Deep:
             def done(s2, lt):
                 cont(s2, self.NONE if lt else self.some(self.binop("Sub", args[0], args[1])))
             return self._bool(st, self.binop("Lt", args[0], args[1]), done)
+        if re.search(r"(^|::)mem::replace$", path) and len(args) == 2 and not f.get("local") and (not self.opaque or not self.opaque.search(path)):
+            # `mem::replace(&mut place, v)`: the old value is the result, `v` is stored
+            v, pl = self._self(st, args[0])
+            if pl is not None:
+                st.effects.append(("write", pl, args[1], site))
+                self.write(st, pl, args[1])
+                return cont(st, v)
         m = COMB.match(path)
         if m and (not self.opaque or not self.opaque.search(path)):
             h = getattr(self, "c_" + m.group(1).lower() + "_" + m.group(2), None)
@@ -990,6 +997,26 @@ class Deep:
         st.effects.append(("write", pl, self.NONE, site))
         self.write(st, pl, self.NONE)
         cont(st, v)
+
+    def c_option_take_if(self, fr, st, a, site, cont):
+        """`opt.take_if(pred)`: Some(v) with pred(&mut v) true -> the option is emptied and Some(v) returned; otherwise None, untouched."""
+        v, pl = self._self(st, a[0])
+        if pl is None:
+            return self._opaque(st, "std::option::Option::<T>::take_if", a, site, cont)
+
+        def some(s, p):
+            cell = ("L", -self.fresh(), 0)
+            s.heap[cell] = p()
+
+            def decided(s3, b):
+                if b:
+                    s3.effects.append(("write", pl, self.NONE, site))
+                    self.write(s3, pl, self.NONE)
+                    cont(s3, self.some(s3.heap.get(cell, p())))
+                else:
+                    cont(s3, self.NONE)
+            self._callf(fr, s, a[1], [("ref", cell)], site, lambda s2, r: self._bool(s2, r, decided))
+        self._case(st, v, "o", self.OPT, site, lambda s, n, p: some(s, p) if n == "Some" else cont(s, self.NONE))
 
     def c_option_ok_or(self, fr, st, a, site, cont):
         self._case(st, a[0], "o", self.OPT, site, lambda s, n, p: cont(s, self.ok(p())) if n == "Some" else cont(s, self.err(a[1])))
